@@ -64,11 +64,15 @@ def gen_plan(prop, seed, index, tier="quick"):
         "auto_commit_interval_ms": r.choice([50, 200, 1000, 2000]),
         "auto_offset_reset": "earliest",
         "max_poll_interval_ms": 10**7,
-        "fetch_max_wait_ms": r.choice([50, 200]),
+        # (C06 is about the control plane: long fetch waits keep the data plane cheap)
+        "fetch_max_wait_ms": r.choice([50, 200]) if prop != "C06" else r.choice([200, 500, 1000]),
         "max_poll_records": r.choice([None, 1, 3, 10]),
         "metadata_max_age_ms": r.choice([500, 2000, 300000]),
         "consumer_timeout_ms": r.choice([20, 200]),
     }
+    # (requests queue behind a long-poll Fetch on the same connection: keep that wait below
+    # the group timeouts, as any sane configuration does)
+    base_kw["fetch_max_wait_ms"] = min(base_kw["fetch_max_wait_ms"], max(50, session // 3))
     napping = prop in ("C05", "C06", "C04") and r.random() < 0.2
     if napping:
         base_kw["max_poll_interval_ms"] = r.choice([300, 500, 800])
@@ -1098,7 +1102,11 @@ def oracle_c06(plan, world, cl, ctx):
             # duration faults (broker down, coordinator loading, stale metadata ...)
             # disturb for as long as they are in effect, not only when they fire
             slack = kw["request_timeout_ms"] / 1000
-            disturbed = any(lo <= s <= hi for s in fault_seqs) or \
+            # (a member the coordinator expelled between its JoinGroup reply and its SyncGroup
+            # - too slow for the rebalance timeout - no longer has "the identity the reply assigned")
+            expelled = any(e["kind"] == "expire" and e.get("member") == ent["member"]
+                           and ent["seq"] <= e["seq"] <= hi for e in groups.ledger)
+            disturbed = expelled or any(lo <= s <= hi for s in fault_seqs) or \
                 any(t_lo - trip <= tf <= nxt["t"] for tf in fault_times) or \
                 any(lo_sub <= s <= hi for s in m.sub_changes) or \
                 any(lo - 5 <= e[0] <= hi for e in ctx["env_log"]) or \
